@@ -438,3 +438,103 @@ def fold_f64(v, depth=0):
         x = fold_f64(v[2], depth + 1)
         return None if x is None else -x
     return None
+
+
+class LocalFlow:
+    """flow-insensitive derivation graph over the locals of one body: `a` derives from `b` when some statement or call computes a
+    from b (moves, borrows, casts, aggregates, call results from their arguments, the target of a `&mut` argument from the other
+    arguments).  Sub-slices taken with Index / get are followed unless `follow_index` is False."""
+
+    def __init__(self, fn, follow_index=True):
+        self.fn = fn
+        self.derives = {}
+        for b, si, st in fn.stmts():
+            if st['k'] == 'assign':
+                for l in self.locals_of(st['rv']):
+                    self.edge(l, st['place']['local'])
+        for b, t in fn.calls():
+            name = callee_name(t)
+            dest = t['dest']['local']
+            argl = [op_base_local(a) for a in t['args']]
+            ranged = 'ops::index::Index' in name or name.endswith('::get') or name.endswith('::get_unchecked')
+            if follow_index or not ranged:
+                for a in argl:
+                    self.edge(a, dest)
+            first_ty = fn.local_ty(argl[0]) if argl and argl[0] is not None else ''
+            if argl and argl[0] is not None and '&' in first_ty and 'mut' in first_ty:
+                tgt = self.mut_target(t['args'][0])
+                for a in argl[1:]:
+                    self.edge(a, tgt)
+
+    def edge(self, src, dst):
+        if src is not None and dst is not None and src != dst:
+            self.derives.setdefault(dst, set()).add(src)
+
+    @staticmethod
+    def locals_of(rv):
+        acc = set()
+
+        def walk(x):
+            if isinstance(x, dict):
+                if 'local' in x and 'proj' in x:
+                    acc.add(x['local'])
+                    for e in x['proj']:
+                        if isinstance(e, dict) and 'index' in e:
+                            acc.add(e['index'])
+                for v in x.values():
+                    walk(v)
+            elif isinstance(x, list):
+                for v in x:
+                    walk(v)
+        walk(rv)
+        return acc
+
+    def mut_target(self, op):
+        """base local of the place a `&mut` argument points at (through reborrow chains)"""
+        fn = self.fn
+        l = op_base_local(op)
+        for _ in range(12):
+            if l is None:
+                return None
+            d = fn.single_def(l)
+            if d is None or d[0] != 'assign':
+                return l
+            rv = d[3]
+            if rv['k'] in ('ref', 'rawptr'):
+                l2 = rv['place']['local']
+                if not any(e == 'deref' for e in rv['place']['proj']):
+                    return l2
+                l = l2
+            elif rv['k'] == 'use' and op_base_local(rv['op']) is not None:
+                l = op_base_local(rv['op'])
+            else:
+                return l
+        return l
+
+    def reaches(self, l, targets):
+        """first member of `targets` that local l derives from (backwards), else None"""
+        seen, work = set(), [l]
+        while work:
+            x = work.pop()
+            if x in seen or x is None:
+                continue
+            seen.add(x)
+            if x in targets:
+                return x
+            work.extend(self.derives.get(x, ()))
+        return None
+
+    def forward(self, l):
+        """all locals derived (transitively) from l"""
+        fwd = {}
+        for d, srcs in self.derives.items():
+            for s_ in srcs:
+                fwd.setdefault(s_, set()).add(d)
+        seen, work = set(), [l]
+        while work:
+            x = work.pop()
+            if x in seen:
+                continue
+            seen.add(x)
+            work.extend(fwd.get(x, ()))
+        return seen
